@@ -421,7 +421,17 @@ def _rest_of_loop_form(ctx, fi, lp, bounds_p):
     for a in fin:
         v = a.value
         f = dotted(v.func) if isinstance(v, ast.Call) else None
-        if f in ('np.array', 'np.asarray', 'np.concatenate', 'np.hstack', 'np.sort', 'list', 'tuple') or isinstance(v, ast.Attribute):
+        dt_ = q.arg(v, 1, 'dtype') if isinstance(v, ast.Call) and f in ('np.array', 'np.asarray') else None
+        dt_x = fi.expand(dt_) if dt_ is not None else None
+        narrowing = dt_x is not None and (any(isinstance(n, ast.Attribute) and n.attr == 'dtype' for n in ast.walk(dt_x)) or
+                                          (dotted(dt_x) or '').split('.')[-1] in ('int', 'int64', 'int32', 'uint64', 'uint32', 'intp', 'int16', 'uint16') or
+                                          (isinstance(dt_x, ast.Name) and dt_x.id == 'int') or const_value(dt_x) in ('int', 'int64', 'i8', 'u8', 'uint64'))
+        if narrowing:
+            ctx.violated('C17.S1', fi, a, 'the kept bounds are converted to dtype `%s`: bounds of the supplied grid that this type cannot hold (fractional bounds with integer spike times) are '
+                         'truncated, and spikes in the cut-off part of a kept chunk are dropped' % unparse(dt_))
+        elif dt_x is not None and (dotted(dt_x) or '').split('.')[-1] not in ('float', 'float64', 'double'):
+            ctx.undecided('C17.S1', fi, 'dtype `%s` of the stored kept bounds not recognised' % unparse(dt_), a)
+        elif f in ('np.array', 'np.asarray', 'np.concatenate', 'np.hstack', 'np.sort', 'list', 'tuple') or isinstance(v, ast.Attribute):
             ctx.holds('C17.S1', fi, 'kept bounds are stored as the flat list of (start, end) pairs, multiplicity preserved', a)
         elif f in ('np.unique', 'set', 'sorted') and (f != 'sorted' or 'set(' in unparse(v)):
             ctx.violated('C17.S1', fi, a, '`%s` removes repeated bounds: adjacent kept chunks share a bound, and without the repetition the odd/even membership test '
